@@ -1060,8 +1060,9 @@ def parse_struct(item):
     return ("unit",)
 
 
-def parse_enum(item):
-    """-> [variant names] (only field-less variants without discriminants are supported)"""
+def parse_enum(item, payloads=None):
+    """-> [variant names]; `payloads` (a dict, if given) receives variant -> [(field name | None, type)] for the
+    variants with fields (without it such variants are refused)"""
     p = Parser(item.toks, item.lo, item.hi)
     p.expect("enum")
     p.ident()
@@ -1075,7 +1076,27 @@ def parse_enum(item):
             p.i = skip_group(p.t, p.i)
         v = p.ident()
         if p.at("(") or p.at("{"):
-            raise Unsupported(f"enum variant `{v}` has fields")
+            if payloads is None:
+                raise Unsupported(f"enum variant `{v}` has fields")
+            named = p.at("{")
+            p.i += 1
+            fs = []
+            close = "}" if named else ")"
+            while not p.at(close):
+                while p.at("#"):
+                    p.i += 1
+                    p.i = skip_group(p.t, p.i)
+                if p.eat("pub") and p.at("("):
+                    p.i = skip_group(p.t, p.i)
+                fn_ = None
+                if named:
+                    fn_ = p.ident()
+                    p.expect(":")
+                fs.append((fn_, p.type_()))
+                if not p.eat(","):
+                    break
+            p.expect(close)
+            payloads[v] = fs
         if p.eat("="):
             p.binary(0, True)          # explicit discriminant: irrelevant for matching
         vs.append(v)
@@ -1580,13 +1601,53 @@ class Checker:
                 unify(ty, ("option", v), "in `Some(..)` pattern")
                 self.check_pattern(p.args[0], v, allow_bind)
                 return
+            if p.path[-1] in ("Ok",) and len(p.args) == 1:
+                v = TVar()
+                unify(ty, ("option", v), "in `Ok(..)` pattern")
+                self.check_pattern(p.args[0], v, allow_bind)
+                return
+            ev = self.w.enum_variant(p.path, soft=True)
+            if ev is not None:
+                pay = self.w.enums[ev[0]][2].get(ev[1])
+                if pay is None or len(pay) != len(p.args) or any(fn_ is not None for fn_, _, _ in pay):
+                    raise Unsupported(f"pattern `{'::'.join(p.path)}(..)` does not match the variant's fields")
+                unify(ty, ("enum", ev[0]), "in enum pattern")
+                for q, (_, _, fty) in zip(p.args, pay):
+                    self.check_pattern(q, fty, allow_bind)
+                p.res = ("variantP", ev[0], ev[1], list(p.args))
+                return
             raise Unsupported(f"pattern `{'::'.join(p.path)}(..)` is not supported")
+        if k == "pstruct":
+            ev = self.w.enum_variant(p.path, soft=True)
+            if ev is None:
+                raise Unsupported("struct patterns are only supported for enum variants")
+            pay = self.w.enums[ev[0]][2].get(ev[1])
+            if pay is None or any(fn_ is None for fn_, _, _ in pay):
+                raise Unsupported(f"`{'::'.join(p.path)} {{..}}` is not a struct-like variant")
+            unify(ty, ("enum", ev[0]), "in enum pattern")
+            given = dict(p.fields)
+            subs = []
+            for fn_, _, fty in pay:
+                if fn_ in given:
+                    q = given.pop(fn_)
+                    self.check_pattern(q, fty, allow_bind)
+                    subs.append(q)
+                elif p.rest:
+                    subs.append(N("pwild"))
+                else:
+                    raise Unsupported(f"pattern without field `{fn_}` and without `..`")
+            if given:
+                raise Unsupported(f"pattern with unknown field `{list(given)[0]}`")
+            p.res = ("variantP", ev[0], ev[1], subs)
+            return
         if k == "ppath":
             if p.path == ["None"]:
                 unify(ty, ("option", TVar()), "in `None` pattern")
                 p.res = ("none",)
                 return
             en, var = self.w.enum_variant(p.path)
+            if self.w.enums[en][2].get(var):
+                raise Unsupported(f"pattern `{'::'.join(p.path)}` without the variant's fields")
             unify(ty, ("enum", en), "in enum pattern")
             p.res = ("variant", en, var)
             return
@@ -1740,6 +1801,16 @@ class Checker:
         if segs in (["Some"], ["Ok"]) and len(args) == 1:
             e.res = ("some",)
             return ("option", self.infer(args[0]))
+        if segs == ["Err"] and len(args) == 1:
+            # which error is returned is not tracked; the payload must be syntactically a plain value
+            def plain(x):
+                while x.kind == "paren":
+                    x = x.e
+                return x.kind in ("path", "lit", "boollit") or (x.kind == "call" and all(plain(y) for y in x.args))
+            if not plain(args[0]):
+                raise Unsupported("`Err(..)` whose payload is not a plain value")
+            e.res = ("errnone",)
+            return ("option", TVar())
         if len(segs) == 2 and segs[0] in INT_TYPES and n == "from_le_bytes" and len(args) == 1:
             unify(self.infer(args[0]), ("vec", "u8"), "in `from_le_bytes`")
             e.res = ("from_le_bytes", INT_TYPES[segs[0]] // 8)
@@ -2481,6 +2552,8 @@ class Gen:
         if k == "cast":
             return self.cast(e.e, prune(e.ty))
         if k == "tuple":
+            if not e.elems:
+                return "()"
             return "(" + ", ".join(self.E(x) for x in e.elems) + ")"
         if k == "vec":
             return "[" + ", ".join(self.E(x) for x in e.elems) + "]"
@@ -2526,6 +2599,8 @@ class Gen:
                 return f"some {P(self.E(e.args[0]))}"
             if r[0] == "emptyiter":
                 return "[]"
+            if r[0] == "errnone":
+                return "none"
             if r[0] == "from_le_bytes":
                 return f"ofLE {P(self.E(e.args[0]))}"
             if r[0] == "intconst":
@@ -2740,6 +2815,8 @@ class Gen:
             return p.binding.lean
         if k == "ptuple":
             return "(" + ", ".join(self.pat(q) for q in p.elems) + ")"
+        if k in ("pctor", "pstruct") and getattr(p, "res", None) and p.res[0] == "variantP":
+            return f"{p.res[1]}.{p.res[2]}" + "".join(" " + P(self.pat(q)) for q in p.res[3])
         if k == "pctor":
             return f"some {P(self.pat(p.args[0]))}"
         if k == "ppath":
@@ -2830,6 +2907,8 @@ class Gen:
         if k == "range":
             return self.conj([self.O(e.lo), self.O(e.hi)])
         if k == "call":
+            if e.res[0] == "errnone":
+                return None
             cs = [self.O(a) for a in e.args]
             if e.res[0] == "fn" and e.res[1].needs_ok:
                 cs.append(self.okapp(e.res[1], [], [self.E(a) for a in e.args]))
@@ -2945,12 +3024,16 @@ class Gen:
         if pend:
             raise Unsupported("`next()` in the scrutinee of a `match`")
         d = [f"match {sval} with"]
+        arms_docs = []
         for p, body in m.arms:
             b = body
             while b.kind == "paren":
                 b = b.e
             if b.kind == "block" and not b.items and b.tail is not None:
                 b = b.tail
+            elif b.kind == "block" and len(b.items) == 1 and b.tail is None and b.items[0].kind == "expr" \
+                    and b.items[0].e.kind in ("return", "break", "continue"):
+                b = b.items[0].e
             if b.kind in ("return", "break", "continue"):
                 arm = self.stmt(b, rest, ctx)
             elif has_ctrl(b):
@@ -2958,8 +3041,11 @@ class Gen:
             else:
                 val, pend, ok = self.EO(b)
                 arm = self.binds(self.let_parts(pat, val) + [(pb.lean, v) for pb, v in pend], ok, rest, ctx)
+            arms_docs.append(arm)
             d += [f"| {self.pat(p)} =>"] + indent(arm)
         d = paren_doc(d)
+        if ctx.mode == "ok" and all(x == ["true"] for x in arms_docs):
+            return [os_] if os_ else ["true"]
         return and_docs([os_] if os_ else None, d) if ctx.mode == "ok" else d
 
     def EO(self, e):
@@ -3463,6 +3549,16 @@ WHITELIST = [
     Entry(TXS, "TransactionBody", "weight_by_iok", "TransactionBody_weight_by_iok", "FnsTx"),
     Entry(TXS, "Transaction", "weight_by_iok", "Transaction_weight_by_iok", "FnsTx"),
     Entry(TXS, "Transaction", "old_weight_by_iok", "Transaction_old_weight_by_iok", "FnsTx"),
+    Entry(TXS, "TransactionBody", "fee", "TransactionBody_fee", "FnsTx"),
+    Entry(TXS, "TransactionBody", "fee_shift", "TransactionBody_fee_shift", "FnsTx"),
+    Entry(TXS, "TransactionBody", "shifted_fee", "TransactionBody_shifted_fee", "FnsTx"),
+    Entry(TXS, "TransactionBody", "lock_height", "TransactionBody_lock_height", "FnsTx"),
+    Entry(TXS, "TransactionBody", "weight", "TransactionBody_weight", "FnsTx",
+          abstract=[("self.inputs.len()", "inputs_len", "usize"), ("self.outputs.len()", "outputs_len", "usize")]),
+    Entry(TXS, "TransactionBody", "verify_weight", "TransactionBody_verify_weight", "FnsTx",
+          abstract=[("self.weight()", "weight", "u64")]),
+    Entry(TXS, "Transaction", "fee", "Transaction_fee", "FnsTx"),
+    Entry(TXS, "Transaction", "shifted_fee", "Transaction_shifted_fee", "FnsTx"),
     Entry(LIBTX, None, "tx_fee", "tx_fee", "FnsTx"),
     # pow/siphash.rs
     Entry(SIP, "SipHash24", "new", "SipHash24_new", "FnsPow"),
@@ -3687,13 +3783,29 @@ class World:
             if len(f) != 1:
                 return None
             rel, it = f[0]
-            vs = parse_enum(it)
+            raw = {}
+            vs = parse_enum(it, raw)
             out = self.out_of_file.get(rel)
             if out is None:
                 raise Unsupported(f"enum `{name}` comes from a file without an output module")
-            self.enums[name] = (vs, out)
+            pay = {}
+            self.cur_out.append(out)
+            try:
+                for v, fs in raw.items():
+                    pay[v] = [(fn_, (("«" + fn_ + "»") if fn_ in LEAN_KEYWORDS else fn_) if fn_ else f"a{i}",
+                               Checker(self, rel, None).resolve_type(syn)) for i, (fn_, syn) in enumerate(fs)]
+                self.enums[name] = (vs, out, pay)
+                lines = []
+                for v in vs:
+                    args = "".join(f" ({lf} : {lean_ty(ty)})" for _, lf, ty in pay.get(v, []))
+                    lines.append(f"  | {v}{args}")
+            except Unsupported as ex:
+                self.enums.pop(name, None)
+                raise Unsupported(f"enum `{name}`: {ex}")
+            finally:
+                self.cur_out.pop()
             self.chunks[out].append(
-                [f"/-- `enum {name}` ({rel}) -/", f"inductive {name}"] + [f"  | {v}" for v in vs] +
+                [f"/-- `enum {name}` ({rel}) -/", f"inductive {name}"] + lines +
                 ["  deriving DecidableEq, Repr, Inhabited"])
         self.note_dep(self.enums[name][1])
         return self.enums[name]
